@@ -16,7 +16,9 @@ def cases(seed, tier, broken=()):
     for i in range(n):
         out.append({"kind": "whitener", "mseed": int(rng.integers(0, 2**31)), "n": int(rng.integers(30, 90)), "p": int(rng.integers(2, 9)),
                     "cplx": bool(i % 2), "logcond": float(rng.choice([0.3, 1.0, 2.0, 3.0, 4.0, 5.0, 6.0])),
-                    "alpha": float(rng.choice([0.0, 0.25, 0.5, 0.75, 1.0, float(rng.uniform(0, 1))])), "dask": bool(i % 5 == 4), "scale": float(10.0 ** rng.integers(-3, 4))})
+                    "alpha": float(rng.choice([0.0, 0.25, 0.5, 0.75, 1.0, float(rng.uniform(0, 1))])), "dask": bool(i % 5 == 4), "scale": float(10.0 ** rng.integers(-3, 4)),
+                    # the SAME Whitener object was fitted before, on data with fewer (or more) features: nothing of that fit may survive
+                    "prefit": [0, 0, -1, 0, 1, 0][i % 6]})
     for i in range(max(20, n // 3)):
         out.append({"kind": "pca", "mseed": int(rng.integers(0, 2**31)), "n": int(rng.integers(30, 70)), "p": int(rng.integers(3, 10)),
                     "cplx": bool(i % 2), "logcond": float(rng.choice([0.5, 2.0, 4.0])), "n_modes": str(rng.choice(["all", "int", "float"])), "dask": bool(i % 5 == 4)})
@@ -58,7 +60,13 @@ def run_whitener(case):
     X = as_da(D, case["dask"])
     cc = f"{'complex' if case['cplx'] else 'real'}|{'dask' if case['dask'] else 'numpy'}"
     try:
-        w = Whitener(alpha=alpha).fit(X)
+        w = Whitener(alpha=alpha)
+        if case.get("prefit"):
+            p0 = max(1, p - 2) if case["prefit"] < 0 else p + 2
+            D0 = matrix(dict(case, p=p0, mseed=case["mseed"] + 7))
+            w.fit(as_da(D0, case["dask"]))
+            cc += "|refit-narrower-before" if case["prefit"] < 0 else "|refit-wider-before"
+        w = w.fit(X)
         Z = np.asarray(w.transform(X).transpose("sample", "feature").values)
     except NotImplementedError:
         return {"findings": [], "info": {"dist": {"outcome": "refused"}}}
